@@ -1,5 +1,75 @@
+//! Sequencer checks: generated histories against the real `App` through `astria_sequencer::verif`.
+
+mod c01;
+mod c02;
+mod c03;
+mod c04;
+mod c05;
+mod c14;
+mod c18;
+mod hist;
+mod l1;
+mod world;
+
 fn main() {
-    let (id, _args) = vcommon::split_args();
-    eprintln!("vseq does not host property {id} yet");
-    std::process::exit(2);
+    // node storage is RocksDB in a temp dir: keep it in memory
+    if std::env::var_os("VERIF_KEEP_TMPDIR").is_none() && std::path::Path::new("/dev/shm").is_dir() {
+        let dir = format!("/dev/shm/verif-{}", std::process::id());
+        if std::fs::create_dir_all(&dir).is_ok() {
+            std::env::set_var("TMPDIR", &dir);
+        }
+    }
+    let (id, args) = vcommon::split_args();
+    match id.as_str() {
+        "C01" => c01::run(&args),
+        "C02" => c02::run(&args),
+        "C03" => c03::run(&args),
+        "C04" => c04::run(&args),
+        "C05" => c05::run(&args),
+        "C14" => c14::run(&args),
+        "C18" => c18::run(&args),
+        "bench" => bench(),
+        other => {
+            eprintln!("vseq does not host property {other}");
+            std::process::exit(2);
+        }
+    }
+}
+
+fn bench() {
+    use proptest::strategy::{Strategy as _, ValueTree as _};
+    let mut runner = proptest::test_runner::TestRunner::deterministic();
+    let strat = hist::history(hist::Bias::default());
+    let t = std::time::Instant::now();
+    let mut total_ops = 0;
+    for _ in 0..20 {
+        let h = strat.new_tree(&mut runner).unwrap().current();
+        total_ops += h.blocks.iter().map(Vec::len).sum::<usize>();
+        struct Nop;
+        impl hist::Oracle for Nop {
+            fn on_tx(&mut self, obs: &hist::TxObs<'_>, _ctx: &mut vcommon::Ctx) -> vcommon::CaseResult {
+                let kinds: Vec<&str> = obs.tx.actions.iter().map(hist::action_row).collect();
+                match obs.outcome {
+                    astria_sequencer::verif::TxOutcome::Executed(_) => eprintln!("   OK   {kinds:?}"),
+                    other => eprintln!("   FAIL {kinds:?}: {}", format!("{other:?}").chars().take(260).collect::<String>()),
+                }
+                Ok(())
+            }
+            fn on_ibc(&mut self, obs: &hist::IbcObs<'_>, _ctx: &mut vcommon::Ctx) -> vcommon::CaseResult {
+                eprintln!("   IBC {:?} -> {:?} events={}", String::from_utf8_lossy(&obs.info.packet.data), obs.result, obs.events.len());
+                Ok(())
+            }
+        }
+        let t0 = std::time::Instant::now();
+        let mut ctx = vcommon::Ctx::default();
+        let r = world::block_on(hist::run(&h, &mut Nop, &mut ctx));
+        eprintln!("case: {} blocks {:?} -> {:?}", h.blocks.len(), t0.elapsed(), r.map(|s| (s.txs_built, s.txs_executed, s.txs_failed, s.ibc_ops)).map_err(|f| f.message));
+    }
+    eprintln!("20 cases, {total_ops} ops, {:?}", t.elapsed());
+    let t = std::time::Instant::now();
+    for _ in 0..10 {
+        let h = strat.new_tree(&mut runner).unwrap().current();
+        world::block_on(async { let _n = world::boot(&h.genesis, 10).await; });
+    }
+    eprintln!("10 boots {:?}", t.elapsed());
 }
